@@ -62,6 +62,7 @@ type Obligation struct {
 	ReplayConfirmed bool
 	CexOutput string
 	LightGoal string
+	qs [4]string
 }
 
 type ModelVar struct {
